@@ -30,7 +30,9 @@ def _nw():
 PATHS = ("parse_expression", "parse_general_expression", "general_propensity", "assignment_rule", "growth_law",
          # the same string compiled a second time, in the same process, for a model that declares the same
          # species in the opposite order (ExprGen.DeclarationOrder: the meaning is attached to names, not positions)
-         "parse_expression@redeclared", "general_propensity@redeclared", "assignment_rule@redeclared")
+         "parse_expression@redeclared", "general_propensity@redeclared", "assignment_rule@redeclared",
+         # the expression as the right-hand side of an assignment rule whose target is a PARAMETER
+         "assignment_rule_parameter")
 
 # identifier pools: underscores, digits, and the single letters that collide with sympy constants, each of
 # them once as a species and once as a parameter
@@ -267,6 +269,26 @@ def eval_case(case):
             obs[path] = fn(mm, case)
         except Exception as e:  # noqa
             obs[path] = _exc(e)
+    try:
+        from bioscrape.types import Model as _Model
+        from bioscrape.simulator import ModelCSimInterface as _Itf
+        mp = _Model(species=list(case["sp"]), parameters=[(n, 1.0) for n in case["par"]] + [("PRX", 0.0)],
+                    rules=[("assignment", {"equation": "PRX = " + case["s"]})], initial_condition_dict={n: 0.0 for n in case["sp"]})
+        p2i = mp.get_params2index()
+        st, pv = _vectors(mp.get_species2index(), p2i, dict(case, par=list(case["par"]) + ["PRX"], p=list(case["p"]) + [0.0]))
+        vals = []
+        for volume_form in (False, True):
+            itf = _Itf(mp)
+            itf.py_set_param_values(pv.copy())
+            a_ = st.copy()
+            if volume_form:
+                itf.py_apply_repeated_volume_rules(a_, case["V"], case["t"], True)
+            else:
+                itf.py_apply_repeated_rules(a_, case["t"], True)
+            vals.append(float(itf.py_get_param_values()[p2i["PRX"]]))
+        obs[PATHS[8]] = vals
+    except Exception as e:  # noqa
+        obs[PATHS[8]] = _exc(e)
     try:
         base = _base_model(case["sp"], case["par"])
         st, pv = _vectors(base.get_species2index(), base.get_params2index(), case)
